@@ -104,7 +104,8 @@ MUTS = {
     "M56_mergeable_uses_hhea": ("write_config_for_mergeable.py", "    ascender = font[\"OS/2\"].sTypoAscender\n    descender = font[\"OS/2\"].sTypoDescender", "    ascender = font[\"hhea\"].ascent + 50\n    descender = font[\"hhea\"].descent", ["C12"]),
     "M57_glyphmap_off_by_one": ("write_glyphmap_for_glyph_svgs.py", "                    glyph_name=glyph_order[int(svg_file.stem)],", "                    glyph_name=glyph_order[max(1, int(svg_file.stem) - 1)] if int(svg_file.stem) %% 2 else glyph_order[int(svg_file.stem)],".replace("%%", "%"), ["C12"]),
     "M58_always_strip_names": ("maximum_color.py", "            if config.load().keep_glyph_names:\n", "            if False:\n", ["C12"]),
-    "M58c_F16_reverted_charstrings_not_read": ("reorder_glyphs.py", "                top_dict.CharStrings\n", "                pass\n", ["C11", "C12"]),
+    "M58c_F16_reverted_charstrings_not_read": ("reorder_glyphs.py", "    for top_dict in cff_top_dicts:\n        top_dict.CharStrings\n", "    for top_dict in cff_top_dicts:\n        pass\n", ["C11", "C12"]),
+    "M58d_F17_reverted_glyph_order_set_first": ("reorder_glyphs.py", "    cff_top_dicts = [\n        top_dict\n        for tag in (\"CFF \", \"CFF2\")\n        if tag in font.keys()\n        for top_dict in font[tag].cff.topDictIndex\n    ]\n    for top_dict in cff_top_dicts:\n        top_dict.CharStrings\n\n    font.setGlyphOrder(new_glyph_order)\n", "    font.setGlyphOrder(new_glyph_order)\n\n    cff_top_dicts = [\n        top_dict\n        for tag in (\"CFF \", \"CFF2\")\n        if tag in font.keys()\n        for top_dict in font[tag].cff.topDictIndex\n    ]\n    for top_dict in cff_top_dicts:\n        top_dict.CharStrings\n", ["C11", "C12"]),
     "M58b_F10_reverted_cff_charset": ("reorder_glyphs.py", "                top_dict.charset = list(new_glyph_order)\n", "                pass\n", ["C12", "C11"]),
     "M34_docs_not_regrouped": ("svg.py", "    _ensure_groups_grouped_in_glyph_order(color_glyphs, ttfont, reuse_groups)\n", "    pass\n", ["C07"]),
     "M35_gradient_cache_not_reset": ("svg.py", "        reuse_cache.gradient_ids = {}  # don't share gradients across groups\n", "", ["C07", "C02"]),
